@@ -61,8 +61,9 @@ def _wordy(node) -> bool:
 @st.composite
 def pattern(draw, depth=1):
     body = draw(seq(depth))
-    start = draw(st.sampled_from(["", "^", "^"] + (["\\b"] if _wordy(body[1][0]) else [])))
-    end = draw(st.sampled_from(["", "$", "$"] + (["\\b"] if _wordy(body[1][-1]) else [])))
+    # `\A` / `\Z` are Python's spellings of the string anchors (two characters wide, unlike `^` / `$`)
+    start = draw(st.sampled_from(["", "^", "^", "\\A"] + (["\\b"] if _wordy(body[1][0]) else [])))
+    end = draw(st.sampled_from(["", "$", "$", "\\Z"] + (["\\b"] if _wordy(body[1][-1]) else [])))
     return ("pat", start, body, end)
 
 def _esc(ch):
